@@ -162,6 +162,15 @@ func templates() []*tpl {
 			Direct: func(b map[string]any) string {
 				return fmt.Sprintf(`{"$and":[{"$gt":{"balance[USD]":%s}},{"$not":{"$match":{"address":%s}}}]}`, js(b["min"]), js("a:"+fmt.Sprint(b["seg"])+":"))
 			}},
+		// string LITERALS of the template outside ASCII (2-, 3- and 4-byte UTF-8 sequences), next to
+		// a variable and on their own: what is substituted is the variable, never the text around it
+		{ID: "acc_unicode", Resource: "accounts",
+			Vars: `{"tail":"string"}`,
+			Body: `{"$or":[{"$match":{"metadata[ville]":"Zür${tail}"}},{"$match":{"metadata[ville]":"東京 🗼"}}]}`,
+			Menu: map[string][]any{"tail": {"ich", "ïch", "x"}},
+			Direct: func(b map[string]any) string {
+				return fmt.Sprintf(`{"$or":[{"$match":{"metadata[ville]":%s}},{"$match":{"metadata[ville]":"東京 🗼"}}]}`, js("Zür"+fmt.Sprint(b["tail"])))
+			}},
 		{ID: "acc_in", Resource: "accounts",
 			Params:   `{"endTime":"` + tieJSON() + `","pageSize":2}`,
 			Vars:     `{"x":"string","y":{"type":"string","default":"a:b"}}`,
@@ -222,6 +231,9 @@ func hugeHistory() *History {
 		/* tx6 */ post(lx.TS(60*sec), "r2", nil, p("big:a", "big:e", "USD", "100000000000000000000")),
 		// 2^53+1: neither this balance nor a variable bound to it survives a float64
 		post(nil, "", nil, p("world", "p:y", "USD", "9007199254740993")),
+		{Kind: "accmeta", Address: "big:b", Meta: md("ville", "Zürich")},
+		{Kind: "accmeta", Address: "big:c", Meta: md("ville", "東京 🗼")},
+		{Kind: "accmeta", Address: "big:d", Meta: md("ville", "ZÃ¼rich")}, // what a byte-wise copy of the literal would select
 	}}
 }
 
@@ -1355,7 +1367,7 @@ func runC37() int {
 		"templates":                          len(ts),
 		"cases_per_history":                  len(cases),
 		"per_template":                       per,
-		"rule":                               "a schema with 11 query templates (transactions ×4, accounts ×3, logs ×2, volumes ×2; string variables with ${…} interpolation, int, boolean and date variables, declared defaults, $in lists, $exists, $and/$or/$not bodies; template params pageSize, sort, endTime, expand, groupBy, insertionDate) is inserted through the real InsertSchema path at the end of each of 4 histories (the fourth, «huge», holds USD balances outside the int64 range on both sides: 2·10^20 … 10^19 ≥ 2^63, −10^19, −3.6·10^20); then RunQuery is called — with the request body decoded exactly as the HTTP handler decodes it (encoding/json without UseNumber: numeric variables arrive as float64) — for EVERY combination of the variable menus (each variable: 2–6 values, or left unbound when it has a default; every int variable is also bound to whole numbers outside the int64 range: 2^63 for transaction/log ids, ±10^20 and 2^63 for balances, in plain digits and in exponent notation 1e20 / -1E+20, all exactly representable as float64 so that the number the caller wrote, the float64 the handler sees and the integer of the direct query are the same number) × EVERY entry of the request-params menu (none, {}, pageSize, sort column/order, endTime, startTime, expand (a list, or the empty list that clears the template's), groupBy, insertionDate, a combination; thorough: also the union of every two entries on disjoint parameters) × two pagination configurations (default 15/max 100; default 4/max 10). Oracle: first page (entities with all expanded fields, page size, hasMore, presence of cursors) equals the direct List* call built by hand from the substituted filter and from defaults ⊕ template params ⊕ request params applied field by field; every page reached through the returned next cursors (and the previous cursor of the last page) equals the page reached through the direct call's cursors. HTTP leg, for every case that passes: the same comparison between the two routes a client calls, served by the real api.NewRouter configured with the case's pagination configuration — POST /v2/l1/queries/{id}/run?schemaVersion=v1 (and its cursors through the same route) against GET /v2/l1/{transactions|accounts|logs|volumes} with the substituted filter in ?query= and the effective parameters in the query string (and its cursors through ?cursor=); entities are compared as JSON documents with every number taken at its exact value (volumes, balances and amounts included), plus status/errorCode and the «resource» member. A difference that a numeric variable substituted as the nearest float64 or as an int64 image (saturation to MinInt64/MaxInt64, two's-complement wrap, zero) reproduces exactly is reported under the shared signature C37:numeric-var:<class>:substituted-as-<image>; HTTP responses that differ only by float64 rounding of numbers under C37:http:response-number-precision. Vacuity guards (measured on passing cases): every template returns data and needs a second page at least once; for each of pageSize, sort, endTime, expand, groupBy set by a TEMPLATE and each of pageSize, sort, endTime, startTime, expand, groupBy, insertionDate set by a REQUEST there is a case in which removing that field from that layer changes the direct query's pages (load_bearing_params), so an implementation ignoring it cannot pass; requests override template-set fields and leave other template-set fields in force; previous cursors are followed; numeric variables beyond the int64 range: for each sign some passing case selects some but not all entities (numeric_beyond_int64_nontrivial), for each sign and each int64 image some passing case in which the direct query with that image substituted returns other pages (numeric_beyond_int64_load_bearing), every template that declares such a binding passes with it, exponent notation is exercised; the HTTP leg ran for every case, followed cursors, and run-query responses carried numbers of magnitude ≥ 2^63 (http_response_numbers_beyond_int64). distinct_nontrivial = distinct (template, binding, request params, config) whose result is non-empty and either a proper subset of the resource or multi-page, on some history",
+		"rule":                               "a schema with 12 query templates (transactions ×4, accounts ×4 — one with non-ASCII string literals around a variable —, logs ×2, volumes ×2; string variables with ${…} interpolation, int, boolean and date variables, declared defaults, $in lists, $exists, $and/$or/$not bodies; template params pageSize, sort, endTime, expand, groupBy, insertionDate) is inserted through the real InsertSchema path at the end of each of 4 histories (the fourth, «huge», holds USD balances outside the int64 range on both sides: 2·10^20 … 10^19 ≥ 2^63, −10^19, −3.6·10^20); then RunQuery is called — with the request body decoded exactly as the HTTP handler decodes it (encoding/json without UseNumber: numeric variables arrive as float64) — for EVERY combination of the variable menus (each variable: 2–6 values, or left unbound when it has a default; every int variable is also bound to whole numbers outside the int64 range: 2^63 for transaction/log ids, ±10^20 and 2^63 for balances, in plain digits and in exponent notation 1e20 / -1E+20, all exactly representable as float64 so that the number the caller wrote, the float64 the handler sees and the integer of the direct query are the same number) × EVERY entry of the request-params menu (none, {}, pageSize, sort column/order, endTime, startTime, expand (a list, or the empty list that clears the template's), groupBy, insertionDate, a combination; thorough: also the union of every two entries on disjoint parameters) × two pagination configurations (default 15/max 100; default 4/max 10). Oracle: first page (entities with all expanded fields, page size, hasMore, presence of cursors) equals the direct List* call built by hand from the substituted filter and from defaults ⊕ template params ⊕ request params applied field by field; every page reached through the returned next cursors (and the previous cursor of the last page) equals the page reached through the direct call's cursors. HTTP leg, for every case that passes: the same comparison between the two routes a client calls, served by the real api.NewRouter configured with the case's pagination configuration — POST /v2/l1/queries/{id}/run?schemaVersion=v1 (and its cursors through the same route) against GET /v2/l1/{transactions|accounts|logs|volumes} with the substituted filter in ?query= and the effective parameters in the query string (and its cursors through ?cursor=); entities are compared as JSON documents with every number taken at its exact value (volumes, balances and amounts included), plus status/errorCode and the «resource» member. A difference that a numeric variable substituted as the nearest float64 or as an int64 image (saturation to MinInt64/MaxInt64, two's-complement wrap, zero) reproduces exactly is reported under the shared signature C37:numeric-var:<class>:substituted-as-<image>; HTTP responses that differ only by float64 rounding of numbers under C37:http:response-number-precision. Vacuity guards (measured on passing cases): every template returns data and needs a second page at least once; for each of pageSize, sort, endTime, expand, groupBy set by a TEMPLATE and each of pageSize, sort, endTime, startTime, expand, groupBy, insertionDate set by a REQUEST there is a case in which removing that field from that layer changes the direct query's pages (load_bearing_params), so an implementation ignoring it cannot pass; requests override template-set fields and leave other template-set fields in force; previous cursors are followed; numeric variables beyond the int64 range: for each sign some passing case selects some but not all entities (numeric_beyond_int64_nontrivial), for each sign and each int64 image some passing case in which the direct query with that image substituted returns other pages (numeric_beyond_int64_load_bearing), every template that declares such a binding passes with it, exponent notation is exercised; the HTTP leg ran for every case, followed cursors, and run-query responses carried numbers of magnitude ≥ 2^63 (http_response_numbers_beyond_int64). distinct_nontrivial = distinct (template, binding, request params, config) whose result is non-empty and either a proper subset of the resource or multi-page, on some history",
 		"samples":                            samples.List(),
 		"exhaustive":                         exhaustive,
 	}, []string{pgsimAssumption, httpAssumptionC37,
